@@ -249,6 +249,10 @@ def rigid_check(cls, case, rec):
     if fc.fields[0].values.size - sum(len(b.dof) for b in bounds.values()) <= k + 2:
         rec.reject("too few free unknowns")
         return
+    nfree_u = fc.fields[0].values.size - len(np.unique(np.concatenate([b.dof for b in bounds.values()])))
+    if cls == "mixed-hexahedron" and nfree_u < 2 * max(2 * k + 1, 20):
+        rec.reject("small singular pencil: ARPACK may drop copies of multiple eigenvalues (see the eigenpairs family)")
+        return
     j1 = fem.FreeVibration([fem.SolidBody(um, fc, density=rho)], bounds).evaluate(k=k)
     tr = {"angles": case["angles"], "shift": case["shift"]}
     mesh2, _, fc2, um2, _ = model(fem, cls, case, transform=tr)
